@@ -675,6 +675,38 @@ pub fn main(args: &Args) -> ! {
     }
     rep.states = model_states.len() as u64;
     rep.part("queue_model", json!({"distinct_model_states": model_states.len(), "model_steps_compared": rep.transitions, "depth": depth, "depth_for_0rtt_starts": depth - 1, "sequences_starting_in_0rtt": early_runs, "sequences": n_q, "executed": qres.len(), "capped": capped}));
+    // (b2) the path shrinks while more near-maximum datagrams are queued than a congestion window
+    // holds (machinery shared with C13): datagrams that no longer fit are dropped, the rest still
+    // leaves, nothing stays queued and the byte accounting returns to zero
+    {
+        let mut bh = vec![];
+        for cfg in ["init1452", "mtudoff1452", "default", "upper9000"] {
+            for (m0, m1) in [(1452usize, 1200usize), (9000, 1200), (1452, 1280)] {
+                for at in if thorough { (8..80).collect::<Vec<u64>>() } else { vec![10, 12, 14, 16, 18, 20, 24, 28, 32, 40] } {
+                    bh.push(crate::checks::c13::Case { cfg: cfg.into(), wl: Wl::W13, m0, at, m1, rebind: false });
+                }
+            }
+        }
+        let n_bh = bh.len();
+        let (bres, capped) = e3(bh, dl, |c| crate::checks::c13::run_case(base, c, false));
+        rep.exhaustive &= !capped;
+        let mut stuck_checked = 0u64;
+        for (c, (tr, v, _)) in &bres {
+            rep.evaluations += 1;
+            rep.distinct.insert(*tr);
+            stuck_checked += 1;
+            for (sig, what) in v {
+                if sig.starts_with("datagram-stuck") || sig.starts_with("integrity:dgram") || sig == "panic" {
+                    rep.violation(Violation {
+                        signature: sig.clone(),
+                        what: format!("cfg={} link MTU {} -> {} at step {} with 44 near-maximum datagrams queued: {what}", c.cfg, c.m0, c.m1, c.at),
+                        replay: json!({"check":"c16","kind":"blackhole","cfg":c.cfg,"m0":c.m0,"at":c.at,"m1":c.m1}),
+                    });
+                }
+            }
+        }
+        rep.part("shrinking_path_with_queued_datagrams", json!({"cases": n_bh, "executed": stuck_checked, "capped": capped}));
+    }
     // (c)
     let cs = e2_integrity_cases(thorough);
     let alts: &[crate::sim::Fate] = if thorough { &FATE_ALTS } else { &FATE_ALTS3 };
@@ -684,7 +716,7 @@ pub fn main(args: &Args) -> ! {
     rep.sample(json!({"kind":"queue","send_buf":3000,"recv_buf":1000,"seq":["Send(1500, false)","Send(1500, false)","Send(1, false)","Flush","Recv"],"meaning":"two 1500-byte datagrams fill the 3000-byte send buffer, the third send must report Blocked; after the flush exactly one DatagramsUnblocked event; the 1000-byte receive buffer keeps only the newest datagrams that fit"}));
     rep.assumptions = vec![
         "queue sequences call send() without polling the connection in between; 'flush' polls and runs the lossless network to quiescence".into(),
-        "datagrams dropped by drop_oversized after a black hole are allowed by the property (datagrams may be dropped)".into(),
+        "datagrams dropped by drop_oversized after a black hole are allowed by the property (datagrams may be dropped); datagrams that stay queued forever and block the ones behind them are not".into(),
     ];
     let _ = BTreeMap::<u8, u8>::new();
     rep.finish()
@@ -709,6 +741,11 @@ fn replay(v: &Value) -> ! {
         "pair" => {
             let m = match r["mtu"].as_str().unwrap_or("") { "Discovered" => MtuState::Discovered, _ => MtuState::Initial };
             println!("{:?}", run_pair(Instant::now(), &m, r["a"].as_u64().unwrap_or(0) as usize, r["b"].as_u64().unwrap_or(0) as usize));
+        }
+        "blackhole" => {
+            let c = crate::checks::c13::Case { cfg: r["cfg"].as_str().unwrap_or("init1452").into(), wl: Wl::W13, m0: r["m0"].as_u64().unwrap_or(1452) as usize, at: r["at"].as_u64().unwrap_or(12), m1: r["m1"].as_u64().unwrap_or(1200) as usize, rebind: false };
+            let (_, v, _) = crate::checks::c13::run_case(Instant::now(), &c, true);
+            println!("violations={v:?}");
         }
         "queue" => {
             let parse = |s: &str| -> QOp {
